@@ -1,1 +1,193 @@
-/-! # C04 — property theorems (stub: not built yet) -/
+import PymocaVerif.Lemmas.ClassAsm
+/-!
+# C04 — the parsed class structure reflects the source declarations
+
+Property theorems only (helper lemmas live in `Lemmas/ClassAsm.lean`).  They are about the model
+`Model/ClassAsm.lean`: `runListener` is `ASTListener` as a state machine over the walker's enter/exit
+events, `expected` / `specClass` the structural specification; `ClassSrc` values are class
+descriptions of any size and nesting depth.  The readings `ClassSrc.names / views / declVis / exts /
+imps / nested / deep`, `Sections.items` say what the source declares, in source order.
+-/
+namespace PymocaVerif.ClassAsm
+
+/-- A small file used to show that the hypotheses below are satisfiable: two clauses (one with three
+    declarators, clause-level and own subscripts, a modification), a nested class re-using a component
+    name, an extends clause, an import, two public sections, equation sections in both flavours. -/
+def demoClass : ClassSrc :=
+  .mk ⟨"model", false, false, "A", "demo", none, 0⟩
+    (.comp ⟨["parameter", "input"], ["Real"], some ["3"],
+        [⟨"a", none, [], 0, "", 0⟩, ⟨"b", some ["2"], [.cm ["start=1"], .val "4"], 1, "cb", 0⟩, ⟨"c", none, [], 0, "", 0⟩]⟩
+      (.cls (.mk ⟨"record", false, false, "R", "", none, 0⟩ (.comp ⟨[], ["Integer"], none, [⟨"a", none, [], 0, "", 0⟩]⟩ .nil) .nil)
+        (.ext ⟨["Base"], ["x=1"], [.m]⟩ (.imp (.qual ["P", "Q"]) .nil))))
+    (.elems .pub (.comp ⟨[], ["Real"], none, [⟨"d", none, [], 0, "", 0⟩]⟩ .nil)
+      (.eqs false ["a = 1"]
+        (.elems .prot (.comp ⟨["flow"], ["Real"], none, [⟨"e", none, [], 0, "", 0⟩]⟩ .nil)
+          (.eqs true ["d = 0"]
+            (.elems .pub (.comp ⟨[], ["Boolean"], none, [⟨"f", some [":"], [], 0, "", 0⟩]⟩ .nil)
+              (.algs false ["d := 2"] .nil))))))
+
+def demoFile : List (Bool × ClassSrc) := [(true, demoClass)]
+
+/-- the demo class is accepted by the specification -/
+theorem demo_ok : ∃ a k', specClass demoClass ⟨0, .none, 0⟩ = .ok (a, k') := ⟨_, _, rfl⟩
+
+/-- **Refinement.**  Walking the event stream of any file with the listener machine gives exactly
+    the tree (or the failure) of the structural specification. -/
+theorem asm_refines (file : List (Bool × ClassSrc)) : runListener file = expected file :=
+  runListener_eq_expected file
+
+example : (fileEvents demoFile).length = 56 := by decide
+
+/-- The class's components are its declarators: each exactly once, in declaration order. -/
+theorem each_component_once {c : ClassSrc} {k k' : Ctr} {a : ClassAst} (h : specClass c k = .ok (a, k')) :
+    a.info.symbols.map (·.name) = c.names ∧ c.names.Nodup :=
+  class_names h
+
+example : demoClass.names = ["a", "b", "c", "d", "e", "f"] := by decide
+
+/-- Every component carries its declarator's name, its clause's type and prefix list (one entry per
+    keyword), its dimensions (own subscripts, then the clause's), its comment and its modification. -/
+theorem components_exact {c : ClassSrc} {k k' : Ctr} {a : ClassAst} (h : specClass c k = .ok (a, k')) :
+    a.info.symbols.map Sym.view = c.views := by
+  match c with
+  | .mk hd first ss =>
+    obtain ⟨S, hS, hv, _⟩ := class_symbols h
+    rw [hS, ← hv]
+    simp [Function.comp_def, Sym.view]
+
+example : (demoClass.views.map (·.dims)) = [[["3"]], [["2"], ["3"]], [["3"]], [["None"]], [["None"]], [[":"]]] ∧
+    (demoClass.views.map (·.prefixes)).head? = some ["parameter", "input"] ∧
+    (demoClass.views.map (·.cmod))[1]? = some (some ["start=1", "value=4"]) := by decide
+
+/-- Declaration numbers increase in declaration order within a class, and every number used inside a
+    class (nested classes included) lies between the counter values before and after the class — so
+    classes that do not contain each other never share a number. -/
+theorem order_is_declaration_order {c : ClassSrc} {k k' : Ctr} {a : ClassAst} (h : specClass c k = .ok (a, k')) :
+    a.info.symbols.Pairwise (fun x y => x.order < y.order) ∧
+    ∀ y ∈ deepSyms a, k.symCount ≤ y.order ∧ y.order < k'.symCount := by
+  constructor
+  · match c with
+    | .mk hd first ss =>
+      obtain ⟨S, hS, _, _, ho, _⟩ := class_symbols h
+      rw [hS, List.pairwise_map]
+      exact ho
+  · intro y hy
+    have := (class_ids c k a k' h).2.2 y hy
+    unfold Sym.Between at this
+    omega
+
+/-- Every component and every extends clause has the visibility of the section it stands in —
+    every section, in any number and order. -/
+theorem visibility_of_section {c : ClassSrc} {k k' : Ctr} {a : ClassAst} (h : specClass c k = .ok (a, k')) :
+    a.info.symbols.map (·.vis) = c.declVis ∧ a.info.extends_.map (·.vis) = c.extVis := by
+  match c with
+  | .mk hd first ss =>
+    constructor
+    · obtain ⟨S, hS, _, hs, _⟩ := class_symbols h
+      rw [← class_secs_vis, ← hs, hS]
+      simp [Function.comp_def]
+    · rw [← class_extSecs_vis]
+      exact (class_extends h).2.1
+
+example : demoClass.declVis = [.priv, .priv, .priv, .pub, .prot, .pub] ∧ demoClass.extVis = [.priv] := by decide
+
+/-- Equations and statements appear in source order, each in its initial or non-initial list; the
+    header fields are the declared ones. -/
+theorem sections_in_order {hd : ClassHdr} {first : Elems} {ss : Sections} {k k' : Ctr} {a : ClassAst}
+    (h : specClass (.mk hd first ss) k = .ok (a, k')) :
+    a.info.equations = ss.items false false ∧ a.info.initialEquations = ss.items false true ∧
+    a.info.statements = ss.items true false ∧ a.info.initialStatements = ss.items true true ∧
+    a.info.name = some hd.name ∧ a.info.kind = hd.kind ∧ a.info.partial_ = hd.partial_ ∧
+    a.info.encapsulated = hd.encapsulated ∧ a.info.comment = hd.comment ∧ a.info.annotation = hd.annotation := by
+  obtain ⟨h1, h2, h3, h4, _, h6, h7, h8, h9, h10, h11⟩ := class_sections h
+  exact ⟨h8, h9, h10, h11, h1, h2, h3, h4, h6, h7⟩
+
+theorem nestedAll_names {ss : List (ClassSrc ⊕ ShortSrc)} {As : List ClassAst} (h : NestedAll ss As) :
+    As.map (·.name) = ss.map (fun s => some (nestedName s)) := by
+  induction h with
+  | nil => rfl
+  | @cons s a ss as hs _ ih =>
+    simp only [List.map_cons, ih, List.cons.injEq, and_true]
+    cases s with
+    | inl c =>
+      obtain ⟨k, k', hc⟩ := hs
+      match c with
+      | .mk hd first rest => exact (class_sections hc).1
+    | inr sh =>
+      have : a = specShort sh := hs
+      subst this
+      rfl
+
+/-- Nested classes, extends clauses and imports are attached to the class that declares them: the
+    class dict is built from the trees of the class's own nested definitions, in source order (and *is*
+    that list when their names differ); extends clauses and imports are the class's own. -/
+theorem nested_attached {c : ClassSrc} {k k' : Ctr} {a : ClassAst} (h : specClass c k = .ok (a, k')) :
+    (∃ As, NestedAll c.nested As ∧ a.classes = As.foldl dictSet [] ∧
+      ((c.nested.map nestedName).Nodup → a.classes = As)) ∧
+    a.info.extends_.map (fun e => (e.path, e.args)) = c.exts.map (fun e => (e.path, e.args)) ∧
+    importsFold c.imps [] = .ok a.info.imports := by
+  match c with
+  | .mk hd first ss =>
+    obtain ⟨As, hA, hc⟩ := class_nested h
+    refine ⟨⟨As, hA, hc, ?_⟩, (class_extends h).1, (class_extends h).2.2⟩
+    intro hn
+    rw [hc, foldl_dictSet_nodup As []]
+    · rfl
+    · rw [List.nil_append, nestedAll_names hA]
+      have : (List.map (fun s => some (nestedName s)) (ClassSrc.mk hd first ss).nested) =
+          ((ClassSrc.mk hd first ss).nested.map nestedName).map some := by simp
+      rw [this]
+      exact List.Pairwise.map some (fun _ _ h => by simpa using h) hn
+
+example : demoClass.nested.map nestedName = ["R"] ∧ demoClass.exts.map (·.path) = [["Base"]] ∧
+    demoClass.imps = [.qual ["P", "Q"]] := by decide
+
+/-- No aliasing: the `type`, `dimensions` and `prefixes` objects of any two different components of
+    a file (same clause, same class or different classes) are different objects. -/
+theorem no_aliasing {file : List (Bool × ClassSrc)} {r : List ClassAst} (h : expected file = .ok r) :
+    (deepSymsList r).Pairwise Sym.Distinct :=
+  (specFile_ok file [] ⟨0, .none, 0⟩ ⟨0, .none, 0⟩ r h (Leq.refl _) (by simp) (by simp)).1
+
+/-- the same inside one class (nested classes included) -/
+theorem no_aliasing_in_class {c : ClassSrc} {k k' : Ctr} {a : ClassAst} (h : specClass c k = .ok (a, k')) :
+    (deepSyms a).Pairwise Sym.Distinct :=
+  (class_ids c k a k' h).2.1
+
+example : ∃ r, expected demoFile = .ok r := ⟨_, rfl⟩
+
+/-- A component declared twice in one class — at any nesting depth — makes the listener reject the
+    file, with one of the listener's own failures (`IOError`). -/
+theorem duplicate_rejected {file : List (Bool × ClassSrc)}
+    (h : ∃ c ∈ file, ∃ c' ∈ c.2.deep, ¬ c'.names.Nodup) : ∃ e, runListener file = .error e ∧ e.Listener := by
+  rw [asm_refines]
+  cases hr : expected file with
+  | error e => exact ⟨e, rfl, specFile_err _ _ _ _ hr⟩
+  | ok r =>
+    obtain ⟨c, hc, c', hc', hn⟩ := h
+    exact absurd ((specFile_ok file [] ⟨0, .none, 0⟩ ⟨0, .none, 0⟩ r hr (Leq.refl _) (by simp) (by simp)).2.1 c hc c' hc') hn
+
+/-- the re-declared name is the one reported: a declarator whose name the class already has fails
+    with `alreadyDefined` of that name -/
+theorem duplicate_reports_name {cl : ClauseSt} {names : List String} {sec : Nat} {k : Ctr} {d : Decl} {e : Err} :
+    specDecl cl names sec k d = .error e ↔ d.name ∈ names ∧ e = .alreadyDefined d.name :=
+  specDecl_err
+
+example : ∃ c ∈ [(false, ClassSrc.mk ⟨"model", false, false, "D", "", none, 0⟩
+      (.comp ⟨[], ["Real"], none, [⟨"x", none, [], 0, "", 0⟩, ⟨"x", none, [], 0, "", 0⟩]⟩ .nil) .nil)],
+    ∃ c' ∈ c.2.deep, ¬ c'.names.Nodup := by decide
+
+/-- The only failures of a walk over a class description are the two `IOError`s the listener raises
+    itself: never an ill-formed event stream, never the `AttributeError` on `symbol_node = None`. -/
+theorem failures_are_listener_failures {file : List (Bool × ClassSrc)} {e : Err} (h : runListener file = .error e) :
+    e.Listener := by
+  rw [asm_refines] at h
+  exact specFile_err _ _ _ _ h
+
+/-- Top-level classes: the file dict is built from the trees of the file's own definitions (with
+    their `final` flag), in source order. -/
+theorem top_level_attached {file : List (Bool × ClassSrc)} {r : List ClassAst} (h : runListener file = .ok r) :
+    ∃ As, FileAll file As ∧ r = As.foldl dictSet [] := by
+  rw [asm_refines] at h
+  exact (specFile_ok file [] ⟨0, .none, 0⟩ ⟨0, .none, 0⟩ r h (Leq.refl _) (by simp) (by simp)).2.2
+
+end PymocaVerif.ClassAsm
